@@ -59,6 +59,16 @@ impl Check for C13 {
 
 type Out<T> = Result<Arr<T>, String>;
 
+fn bshape_buf(_b: &[usize], ep: usize, qshape: &[usize], trailing: &[usize]) -> Vec<usize> {
+    if ep == 2 {
+        trailing.to_vec()
+    } else {
+        let mut w = qshape.to_vec();
+        w.extend_from_slice(trailing);
+        w
+    }
+}
+
 /// array of the logical shape `shape` (rank >= 3) whose rows along axis 0 are stored contiguously in Fortran order
 /// (`rows_f`), or in plain C order
 fn rows_layout<T: Clone>(logical: &ArrayD<T>, rows_f: bool, junk: T) -> ArrayD<T> {
@@ -311,6 +321,28 @@ fn run<T: Flt>(src: &mut Src, obs: &mut Obs, two_d: bool) -> Result<(), Fail> {
                 }
             }
         }
+        // (b) equal lanes handed over as a broadcast (stride 0) view of the first lane
+        if let Some(col) = broadcastable(&c.data, c.n, c.lanes) {
+            obs.class("data:broadcast-view");
+            let mut bshape = vec![c.n];
+            bshape.extend(c.trailing.iter().map(|_| 1));
+            let bi = catch(|| build1_bcast::<T>(explicit_x.then(|| x_c.clone()), arr_d::<T>(&bshape, &col), &c.shape(), c.dd, &strat));
+            match bi {
+                Ok(Some(Ok(i))) => {
+                    let mut buf_b = blank(&bshape_buf(&bshape, ep, &qshape, &c.trailing), Layout::C, poison, src);
+                    let rb = call1(i.as_ref(), ep, &q_c, q_owned, qd, &mut buf_b);
+                    obs.asserts += 1;
+                    // spline coefficients may be computed per type (view data vs owned data): compare as in the owned-vs-view cross check
+                    let exact = matches!(c.axis_class, AxisClass::Index | AxisClass::Unit | AxisClass::Dyadic | AxisClass::Symmetric);
+                    if (matches!(c.strat, StratSel::Linear) || exact || data_view) && !same(&base, &rb) {
+                        fail!("layout-dependence/broadcast-view", "data with equal lanes handed over as a broadcast (stride 0) view gives other results than the owned array with the same contents; {ctx}");
+                    }
+                }
+                Ok(Some(Err(e))) => fail!("layout-build-rejected/data:broadcast", "build() rejected a broadcast view of valid data: {e}; {ctx}"),
+                Ok(None) => {}
+                Err(p) => fail!("layout-build-panic/data:broadcast", "build() panicked for a broadcast view: {p}; {ctx}"),
+            }
+        }
         // owned vs view (different concrete types)
         let exact_axis = matches!(c.axis_class, AxisClass::Index | AxisClass::Unit | AxisClass::Dyadic | AxisClass::Symmetric);
         let cross = with_interp1::<T, Out<T>>(explicit_x.then_some(&x_c), !axes_view, &data_c, !data_view, c.dd, &strat, &mut |i| call1(i, ep, &q_c, !q_owned, qd, &mut buf_x));
@@ -407,6 +439,39 @@ fn run<T: Flt>(src: &mut Src, obs: &mut Obs, two_d: bool) -> Result<(), Fail> {
                         fail!("layout-dependence/2d/aliasing-queries", "ys passed as the transposed view of the memory behind xs gives other results than an independent array with the same contents; {ctx}");
                     }
                 }
+            }
+        }
+        // aliasing axes: x and y as two shared arrays over one allocation (same first element, same length, other stride)
+        if let Some(abuf) = g.alias_buffer() {
+            obs.class("axes:aliasing-views");
+            let (xa, ya) = aliasing_pair::<T>(abuf.iter().map(|&v| T::of(v)).collect(), g.nx);
+            let (lo, hi) = (g.x[0].max(g.y[0]), g.x[g.nx - 1].min(g.y[g.ny - 1]));
+            let diag: Vec<T> = [0.07, 0.3, 0.55, 0.8, 0.96].iter().map(|t| T::of(lo + (hi - lo) * t)).collect();
+            let on_diag = |i: &dyn I2<T>| -> Vec<Out<T>> {
+                diag.iter().map(|&v| catch(|| i.t_interp(v, v)).map(|o| o.map_err(|e| format!("Err({e})"))).unwrap_or_else(|p| Err(format!("panic: {p}")))).collect()
+            };
+            let want = with_interp2::<T, Vec<Out<T>>>(Some(&x_c), Some(&y_c), false, &data_c, false, g.dd, false, &mut |i| on_diag(i));
+            match catch(|| build2_any::<T, ndarray::OwnedArcRepr<T>>(Some(xa), Some(ya), data_c.clone(), g.dd, false)) {
+                Ok(Some(Ok(i))) => {
+                    let mut buf_a = blank(&bshape, Layout::C, poison, src);
+                    let ra = call2(i.as_ref(), ep, &qx_c, &qy_c, q_owned, qd, &mut buf_a);
+                    obs.asserts += 1;
+                    if !same(&base, &ra) {
+                        fail!("layout-dependence/2d/aliasing-axes", "x and y handed over as two views of one allocation (same start, same length, different strides) give other results than independent arrays with the same contents; {ctx}");
+                    }
+                    if let Some(Ok(want)) = want {
+                        let got = on_diag(i.as_ref());
+                        for (k, (w, gt)) in want.iter().zip(got.iter()).enumerate() {
+                            obs.asserts += 1;
+                            if !same(w, gt) {
+                                fail!("layout-dependence/2d/aliasing-axes", "x and y handed over as two views of one allocation: interp({v:e}, {v:e}) differs from the result with independent axis arrays; {ctx}", v = diag[k].f());
+                            }
+                        }
+                    }
+                }
+                Ok(Some(Err(e))) => fail!("layout-build-rejected/2d/aliasing-axes", "build() rejected valid axes that alias each other: {e}; {ctx}"),
+                Ok(None) => {}
+                Err(p) => fail!("layout-build-panic/2d/aliasing-axes", "build() panicked: {p}; {ctx}"),
             }
         }
         let cross = with_interp2::<T, Out<T>>(ex.then_some(&x_c), ey.then_some(&y_c), !axes_view, &data_c, !data_view, g.dd, false, &mut |i| call2(i, ep, &qx_c, &qy_c, !q_owned, qd, &mut buf_x));
